@@ -237,11 +237,23 @@ pub struct Jet {
     pub vl: f64,
     pub gl: Vec<f64>,
     pub hl: Vec<Vec<f64>>,
+    /// absolute uncertainty inherited from the float implementation of the normal cdf (see
+    /// PHI_IMPL_ACCURACY), propagated through later steps by the same first-order rules
+    pub va: f64,
+    pub ga: Vec<f64>,
+    pub ha: Vec<Vec<f64>>,
 }
 
 /// Quantities this small may have passed through subnormal intermediates (for example squared
 /// normal densities), where relative error bounds no longer hold.
 pub const UNDERFLOW_FLOOR: f64 = 1e-280;
+
+/// The float implementation of the standard normal cdf used by the library (statrs' erfc) is
+/// piecewise and has jumps of up to 2.5e-11 between neighbouring doubles at its branch points
+/// (arguments +-0.5*sqrt2, +-0.75*sqrt2, +-1.25*sqrt2, ...; measured). Two evaluations whose
+/// arguments differ in the last bit can therefore differ by that much in value; this is a
+/// property of the float function, not of the dual numbers, and is allowed for explicitly.
+pub const PHI_IMPL_ACCURACY: f64 = 5e-11;
 
 impl Jet {
     fn constant(c: f64, n: usize) -> Jet {
@@ -255,6 +267,9 @@ impl Jet {
             vl: c.abs(),
             gl: vec![0.0; n],
             hl: vec![vec![0.0; n]; n],
+            va: 0.0,
+            ga: vec![0.0; n],
+            ha: vec![vec![0.0; n]; n],
         }
     }
     fn var(i: usize, x: f64, n: usize) -> Jet {
@@ -265,13 +280,13 @@ impl Jet {
         j
     }
     pub fn vtol(&self, rel: f64) -> f64 {
-        rel * self.vmag + 1e-26 * self.vl + UNDERFLOW_FLOOR
+        rel * self.vmag + 1e-26 * self.vl + self.va + UNDERFLOW_FLOOR
     }
     pub fn gtol(&self, i: usize, rel: f64) -> f64 {
-        rel * self.gmag[i] + 1e-24 * self.gl[i] + UNDERFLOW_FLOOR
+        rel * self.gmag[i] + 1e-24 * self.gl[i] + self.ga[i] + UNDERFLOW_FLOOR
     }
     pub fn htol(&self, i: usize, k: usize, rel: f64) -> f64 {
-        rel * self.hmag[i][k] + 1e-22 * self.hl[i][k] + UNDERFLOW_FLOOR
+        rel * self.hmag[i][k] + 1e-22 * self.hl[i][k] + self.ha[i][k] + UNDERFLOW_FLOOR
     }
     /// chain rule for a scalar function with value f0 and derivatives f1, f2, f3 at u
     fn unary(u: &Jet, f0: f64, f1: f64, f2: f64, f3: f64) -> Jet {
@@ -280,6 +295,13 @@ impl Jet {
         let (a1, a2, a3) = (f1.abs(), f2.abs(), f3.abs());
         o.vmag = f0.abs() + a1 * u.vmag;
         o.vl = f0.abs() + a1 * u.vl;
+        o.va = a1 * u.va;
+        for i in 0..n {
+            o.ga[i] = a1 * u.ga[i] + a2 * u.va * u.g[i].abs();
+            for k in 0..n {
+                o.ha[i][k] = a1 * u.ha[i][k] + a2 * u.va * u.h[i][k].abs() + a2 * (u.ga[i] * u.g[k].abs() + u.g[i].abs() * u.ga[k]) + a3 * u.va * (u.g[i] * u.g[k]).abs();
+            }
+        }
         for i in 0..n {
             o.gl[i] = (a1 + a2 * u.vl) * u.gl[i];
             for k in 0..n {
@@ -305,6 +327,13 @@ impl Jet {
         let mut o = Jet::constant(a.v + sign * b.v, n);
         o.vmag = a.vmag + b.vmag;
         o.vl = a.vl + b.vl;
+        o.va = a.va + b.va;
+        for i in 0..n {
+            o.ga[i] = a.ga[i] + b.ga[i];
+            for k in 0..n {
+                o.ha[i][k] = a.ha[i][k] + b.ha[i][k];
+            }
+        }
         for i in 0..n {
             o.gl[i] = a.gl[i] + b.gl[i];
             for k in 0..n {
@@ -327,6 +356,20 @@ impl Jet {
         let (av, bv) = (a.v.abs(), b.v.abs());
         o.vmag = av * b.vmag + a.vmag * bv + o.v.abs();
         o.vl = 2.0 * a.vl * b.vl;
+        o.va = av * b.va + a.va * bv;
+        for i in 0..n {
+            o.ga[i] = a.ga[i] * bv + a.g[i].abs() * b.va + a.va * b.g[i].abs() + av * b.ga[i];
+            for k in 0..n {
+                o.ha[i][k] = a.ha[i][k] * bv
+                    + a.h[i][k].abs() * b.va
+                    + a.ga[i] * b.g[k].abs()
+                    + a.g[i].abs() * b.ga[k]
+                    + a.ga[k] * b.g[i].abs()
+                    + a.g[k].abs() * b.ga[i]
+                    + a.va * b.h[i][k].abs()
+                    + av * b.ha[i][k];
+            }
+        }
         for i in 0..n {
             o.gl[i] = 2.0 * (a.gl[i] * b.vl + a.vl * b.gl[i]);
             for k in 0..n {
@@ -383,7 +426,9 @@ pub fn eval_jet(e: &Expr, x: &[f64]) -> Jet {
         Expr::NormCdf(a) => {
             let u = eval_jet(a, x);
             let p = phi(u.v);
-            Jet::unary(&u, MathFuncs::norm_cdf(&u.v), p, -u.v * p, (u.v * u.v - 1.0) * p)
+            let mut o = Jet::unary(&u, MathFuncs::norm_cdf(&u.v), p, -u.v * p, (u.v * u.v - 1.0) * p);
+            o.va += PHI_IMPL_ACCURACY;
+            o
         }
         Expr::InvNormCdf(a) => {
             let u = eval_jet(a, x);
